@@ -83,7 +83,7 @@ MIN_OBS = {
                  'judgements_on_moved_files': 5600},
 }
 SHARD_TIMEOUT = {'quick': 600, 'thorough': 5400}
-SIZES = {'quick': 1200, 'thorough': 12000}
+SIZES = {'quick': 1200, 'thorough': 180000}
 WHAT_FAILS = {
     'search:locked-file-in-normal-results': 'a search reply lists a file among the downloadable results for a user who is not entitled to it',
     'search:excluded-phrase-not-applied': 'a search reply contains a file whose path contains a server-excluded phrase',
